@@ -606,6 +606,47 @@ fn gen_vsign(ctx: &mut Ctx) {
         let res = ctx.case(line.clone(), true, "many-buffered-bytes");
         ctx.monitor(!res.contains("PANIC"), "C12-no-panic", "VSL 3 M <262 chunks of 255 bytes at non-zero offsets>", &res);
     }
+    // page lists of 255, 256, 257 and 512 one-chunk pages in one transfer, then the whole flip cycle (show, settle, load
+    // next, settle, show again)
+    for npages in [255usize, 256, 257, 512] {
+        let mut msgs = vec!["RO.3.RCF".to_string(), format!("SD.0.{}", config_blocks()[2].0), "DC.1".to_string(), "RO.3.RPX".to_string()];
+        for i in 0..npages {
+            let mut page = vec![(i % 256) as u8, 0x10, 0, 0, 1, 2, 3, 4, 5, 6, 7, 8, 0xFF, 0xFF, 0xFF, 0xFF];
+            page[4] = (i / 256) as u8;
+            msgs.push(format!("SD.0.{}", hex_of_bytes(&page)));
+        }
+        msgs.push(format!("DC.{}", npages));
+        for m in ["QS.3", "PC.3", "QS.3", "RO.3.SLP", "QS.3", "QS.3", "RO.3.LNP", "QS.3", "QS.3", "RO.3.SLP", "QS.3", "QS.3", "RO.3.LNP", "QS.3"] {
+            msgs.push(m.to_string());
+        }
+        let line = format!("VSL 3 M {}", msgs.join(" "));
+        let res = ctx.case(line, true, "many-pages-then-flip");
+        ctx.monitor(!res.contains("PANIC"), "C12-no-panic", &format!("VSL 3 M <{} one-chunk pages, then show / load next twice>", npages), &res[..res.len().min(200)]);
+    }
+    // custom geometries taller than two bytes per column, with pages of several chunks: a correct, correctly counted
+    // transfer is stored whatever the shape
+    for (fam, w, h) in [(4u8, 32u32, 24u32), (4, 60, 40), (8, 32, 24), (8, 100, 20), (4, 8, 17), (8, 16, 33), (4, 120, 64), (8, 160, 24)] {
+        let block: Vec<u8> = if fam == 4 {
+            let (w1, w2) = (w.min(255), w.saturating_sub(255));
+            vec![4, 0x20, 0, 0, h as u8, w1 as u8, w2 as u8, 0, 0, (8 * ((h + 7) / 8)) as u8, 0, 0, 0, 0, 0, 0]
+        } else {
+            vec![8, 0xB1, 0, 0, 0, h as u8, 0, w as u8, 0, 0, 0, 0, 0, 0, 0, 0]
+        };
+        let total = total_bytes(w as u64, h as u64) as usize;
+        let page: Vec<u8> = (0..total).map(|i| if i == 0 { 9 } else { (i * 7 % 251) as u8 }).collect();
+        let mut msgs = vec!["RO.3.RCF".to_string(), format!("SD.0.{}", hex_of_bytes(&block)), "DC.1".to_string(), "QS.3".to_string(), "RO.3.RPX".to_string()];
+        let mut n = 0;
+        for (k, c) in page.chunks(16).enumerate() {
+            msgs.push(format!("SD.{}.{}", k * 16, hex_of_bytes(c)));
+            n += 1;
+        }
+        msgs.push(format!("DC.{}", n));
+        msgs.push("QS.3".to_string());
+        let line = format!("VS 3 A {}", msgs.join(" "));
+        let res = ctx.case(line.clone(), true, "tall-custom-geometry");
+        let want_pages = format!("# {}.{}.{}", w, h, hex_of_bytes(&page));
+        ctx.monitor(res.ends_with(&want_pages), "C13-state-machine", &line[..line.len().min(400)], "a complete, correctly counted page of the configured size was not stored");
+    }
     // transfers made of nothing but 0xFF (what padding looks like): exactly one page, a chunk too many, two pages, half a
     // page, with the right and a wrong count, ended by the count or by a new page
     for (bi, plen) in [(0usize, 96usize), (2, 16)] {
